@@ -11,6 +11,10 @@ CHECKS = {}
 def add(pid, technique, text, note, ref):
     CHECKS[pid] = (technique, text, note, ref)
 
+add("C01", "runtime monitor: hostile-workload totality oracle, worker processes with CPU watchdog",
+    "Every entry point is driven with tag-soup trees, every/sampled element of generated pages as attached and detached root, 24 kinds of hand-built roots, structure-aware byte mutations through ApplyForReader/ApplyForFile, hostile pagers, size stress and all option shapes; each call runs under recover() inside a worker process whose death, and whose CPU consumption per case (60 s bound), the parent observes. Oracle: no panic, no process death, bounded CPU, err != nil or Result.Node is a <div>. Held on ~50k (quick) / ~1.2M (thorough) calls; termination is decided as bounded progress only.",
+    "Trusted: Go runtime's recover/rusage, the journal that names the case in flight. Inputs are <= ~1 MB and <= 2000 nesting levels; cyclic graphs and nil roots are outside the contract.",
+    "DESIGN.md §5 C01")
 add("C02", "runtime monitor: token-ledger oracle over generated pages",
     "Every word of every generated page is a unique token whose visibility is known by construction; the monitor observes Result.Text and the text nodes of Result.Node of each execution and flags invented, non-visible, duplicated or reordered tokens. Held on the executions produced (thousands of pages, >1M emitted tokens per quick run), not a proof.",
     "Trusted: the generator's ledger (what is visible by construction), the harness tokeniser, x/net/html. Reach is limited to the block kinds the grammar produces.",
@@ -19,6 +23,74 @@ add("C03", "runtime monitor: per-paragraph all-or-nothing oracle + enumerated ch
     "For every simple paragraph of every generated page the number of its tokens found in Result.Text must be 0 or all; child sequences up to length 4 over {text, br, inline, link, js-link(1 text), js-link(other)} are enumerated at five placements. Held on the executions produced.",
     "Trusted: ledger paragraph membership, tokeniser. Paragraphs whose inline elements carry attributes are outside the statement and not generated.",
     "DESIGN.md §5 C03")
+add("C04", "runtime monitor: token-kind leak oracle over a carrier x placement grid",
+    "Tokens are written into every non-rendered carrier (script, style, comment, head, hidden, display:none, visibility:hidden/collapse, aria-hidden, hidden figcaption) and every skipped carrier (form controls, noscript, svg, object, embed, applet, unrecognised iframe) at 10 placements (grid every run) and at random places of random pages; any such token in Result.Text or in Result.Node outside placeholders is a violation, with the stated exemption for skipped carriers inside a data table or figure. Held on the executions produced.",
+    "Trusted: ledger token kinds and the 'emitted while a table/figure was open' exemption flag; tokeniser.",
+    "DESIGN.md §5 C04")
+add("C05", "runtime monitor: walk of the distilled tree with attribute-noise stamped inputs",
+    "Every generated element carries id/class/style/onclick/onload/data-*/unknown attributes with unique values; the monitor walks every element and attribute of Result.Node and flags script/style elements, on* attributes, id/class/style and data-* outside the placeholder wrapper (which may carry exactly class, data-type, data-id). Held on ~250k elements per quick run over all output paths (text, lists, images, pictures, figures, captions, videos, tables, placeholders).",
+    "Trusted: the walk; the definition of the placeholder wrapper as div.embed-placeholder.",
+    "DESIGN.md §5 C05")
+add("C06", "runtime monitor: URL ledger with expectations by construction (independent RFC 3986 resolution)",
+    "Every URL-carrying attribute of every generated page is a reference of a known form with a unique id; each URL found in Result.Node (outside placeholders) and in ContentImages is matched by id against the value expected by construction for 5 page URLs and 11 reference forms. Held on ~50k URLs per quick run.",
+    "Trusted: the harness' resolver for exactly the generated forms; ids never collide; srcset candidates contain no commas.",
+    "DESIGN.md §5 C06")
+add("C07", "runtime monitor: ancestor-chain and table-completeness oracle against the parsed source",
+    "For each retained token the chain of ul/ol/li/blockquote/pre ancestors in Result.Node is compared with the chain in the harness' own parse of the source; each retained data table is compared row by row and cell by cell with the ledger. Held on ~600k nested retained tokens and ~2.8k retained tables per quick run.",
+    "Trusted: the shared x/net/html parse; ledger of table cells; a table is identified by the unique token of its first header cell.",
+    "DESIGN.md §5 C07")
+add("C08", "runtime monitor: media-retention iff-oracle from the ledger",
+    "For each media element (img, picture, lazy img, figure, video, youtube/vimeo iframe, twitter quote, data table; also inside paragraphs, list items, layout cells) 'present in Result.Node' must equal 'the last text-block token written before it is in Result.Text', with at most one promoted img/figure per page. Held on ~35k media elements per quick run (kept, dropped and lead promotions all observed).",
+    "Trusted: ledger's notion of the preceding text block (captions, cells, embed text, hidden/skipped carriers are not text blocks); titles match no block.",
+    "DESIGN.md §5 C08")
+add("C09", "runtime monitor: cross-view agreement oracles (Text vs HTML walk, ContentImages subsequence, WordCount recount)",
+    "Token sequence of Text equals that of the visible text of Result.Node (harness' own visibility walk); ContentImages is a subsequence of the src/srcset list of img/source elements in document order; on text-only pages with punctuation attached/detached WordCount equals the recount of Text. Held on the executions produced.",
+    "Trusted: the harness' visibility walk (skips script/style, hidden, placeholders) and word definition (whitespace-separated items containing an ASCII alphanumeric).",
+    "DESIGN.md §5 C09")
+add("C10", "runtime monitor: deep before/after snapshots of caller-owned trees, Options and URLs over call histories; loopback HTTP for ApplyForURL",
+    "A deep snapshot (node identity, type, atom, data, namespace, attributes, five links, from the top-most ancestor) of the caller's tree and of Options/*url.URL is compared after every call of a 5-call history per page (document / attached / detached roots, shared Options and URL), for Apply, ApplyForReader, ApplyForFile and ApplyForURL (in-process HTTP server on 127.0.0.1). Held on ~15k tree comparisons and ~20k options comparisons per quick run.",
+    "Trusted: the snapshot covers everything html.Node exposes; loopback networking works in the sandbox.",
+    "DESIGN.md §5 C10")
+add("C11", "runtime monitor: repeated-run and cross-process result equality (map-order / history independence), entry-point equivalence",
+    "Each input runs R times in one process (R=8/40 for pagination-bearing inputs) alternating the three entry points, and once more in another worker process in reverse order; all result fields except TimingInfo must be equal. Probabilistic per input for map-order dependence (bounds in DESIGN.md); held on ~20k repetition comparisons and ~3k cross-process pairs per quick run.",
+    "Trusted: Go re-randomises map iteration per range statement; field-wise comparison with nil = empty slice.",
+    "DESIGN.md §5 C11")
+add("C12", "Go race detector (-race build, halt_on_error=0, log scan) + isolation oracle (concurrent result = sequential result) with measured overlap",
+    "16/64 goroutines released behind a barrier call Apply on different documents, one shared tree, shared Options/URL, sub-element roots and all log-flag sets, with GOMAXPROCS 2/4/16; the concurrent phase runs first (so it is the first to touch any state), the sequential reference afterwards. Race reports are counted and de-duplicated from the detector's log; a runtime 'concurrent map' fatal error is caught as worker death. Evidence reports overlapping call pairs actually observed. Held on the interleavings produced only.",
+    "Trusted: the race detector (happens-before based; sees only executed accesses). Interleavings are not enumerated.",
+    "DESIGN.md §5 C12")
+add("C13", "runtime monitor: full option grid per document with equality classes",
+    "For each document the full grid LogFlags 0..31 x 2 algorithms x SkipPagination x URL nil/given (256 calls) runs on one parsed tree; contents must be equal within a URL value, PaginationInfo equal across log flags and empty when skipped or URL-less, Result.URL as supplied. Exhaustive over the option grid for each sampled document; documents are sampled.",
+    "Trusted: field-wise comparison; log output is discarded.",
+    "DESIGN.md §5 C13")
+add("C14", "runtime monitor: metamorphic source-separation oracle + by-construction reference model of the precedence rule",
+    "Oracle A: page with all three markup sources vs the same page with one source each: MarkupInfo(all) must be the precedence-combination. Oracle B: canonical pages enumerating 16 required-property subsets x 8 source-presence subsets x og:type x opt-out with unique-token values and the expected MarkupInfo computed by the harness' own model. Held on ~6k pages per quick run, all three article branches, opt-out and OG-disqualified pages observed.",
+    "Trusted: oracle A trusts each parser in isolation; oracle B trusts the harness' model of what a well-formed source provides.",
+    "DESIGN.md §5 C14")
+add("C15", "runtime monitor: title provenance oracle + two-step repeat-suppression check",
+    "Generated <title> strings (1-4 parts, 14 separators, lengths 0-300) x h1/h2 x markup titles: Title must equal the markup title, else be the title text, a contiguous part of it or the first h1; exact for 15..150 characters without separator characters; a block whose text is exactly the learnt Title must not be emitted (count-based, so other blocks sharing words do not confuse it). Held on ~6k titles per quick run.",
+    "Trusted: entity decoding of the generator; conservative reading of 'separator pattern' for the exactness clause.",
+    "DESIGN.md §5 C15")
+add("C16", "runtime monitor: pagination-link validity oracle over hostile pagers (anchor set computed independently)",
+    "Hostile pagers (30 dangerous href shapes, gaps, duplicates, descending and calendar runs) x 15 page URLs x both algorithms; every non-empty Next/PrevPage must parse, be http(s), same host, and equal (canonically) the resolution against the real page URL of some anchor of the document. Held on ~40k non-empty links per quick run.",
+    "Trusted: canonical form (case of scheme/host, trailing slash, fragment ignored); the harness' anchor resolution with net/url.",
+    "DESIGN.md §5 C16")
+add("C17", "runtime monitor: exhaustive enumeration of the conventional-pager grid against links expected by construction",
+    "N in 2..12 x k x 6 URL families x 3 href forms x trailing slash x separators x decorations (page-number) and x label pairs x with/without numbers (prev/next): 35,112 pagers in quick, x 4 wrappers x noise in thorough; expected next/prev computed by resolving the generated href. Exhaustive over the stated grid.",
+    "Trusted: canonical URL comparison. Nothing is demanded of a prev/next side without a labelled anchor.",
+    "DESIGN.md §5 C17")
+add("C18", "runtime monitor: reference implementation of the cascade vs black-box observation (<table> in output), exhaustive grid in thorough",
+    "Tables are generated from feature vectors; the reference cascade (30 lines) predicts data/layout; observation is the presence of a <table> element in Result.Node. thorough enumerates the full cross product (1.1M vectors incl. placements), quick covers all single settings, all pairs of settings of two dimensions and a biased sample. Every rule of the cascade is observed deciding.",
+    "Trusted: the reference implementation of the stated cascade; the observer (a layout table never serialises as <table> outside list items, which are not generated).",
+    "DESIGN.md §5 C18")
+add("C19", "runtime monitor: host/path/carrier grid with true host and id known by construction",
+    "28 hosts (allow-listed, subdomains, look-alikes, userinfo tricks, case/port/trailing dot) x 14 path shapes x 5 source forms x 5 carriers = 9,800 cases every run: a placeholder only for a truly allow-listed host, with the service as data-type and the URL's id as data-id; no bare iframe survives. Exhaustive over the stated grid in quick; thorough repeats it inside random articles.",
+    "Trusted: the harness' notion of the true host and of 'the id taken from the URL' (last path segment; data-tweet-id for rendered tweets).",
+    "DESIGN.md §5 C19")
+add("C20", "runtime monitor: metamorphic triple (page, marked subtrees deleted, markers neutralised) with feedback-steered threshold sweep",
+    "For each page W = WordCount of the deleted variant decides which variant the page must equal; W is steered by feedback to hit 497..503 exactly and drawn from [250,750] otherwise; only triples where the two variants differ count as non-trivial. Held on ~1.6k triples per quick run with >100 triples at each W in 497..503.",
+    "Trusted: equality on Title/Text/HTML/WordCount/ContentImages; markers are restricted to those that feed only the unlikely test.",
+    "DESIGN.md §5 C20")
 
 NOT_YET = {}
 
